@@ -88,6 +88,7 @@ func Sync(r PeekScanner) (off int64, err error) {
 			}
 			return off, err
 		}
+		off++
 	}
 }
 
